@@ -380,7 +380,7 @@ pub fn run(ctx: &Ctx) -> (Acc, String, bool) {
         }
     }
     let tmpl_total = tmpl_cases.len() as u64;
-    let random_total: u64 = ctx.pick(40_000, 2_000_000);
+    let random_total: u64 = ctx.pick(300_000, 20_000_000);
     let seed = ctx.seed;
     let gen_cfg = GenCfg { idents: NAMES[..6].iter().map(|s| s.to_string()).collect(), ..GenCfg::default() };
     let acc = run_cases(ctx, matrix_total + instr_total + tmpl_total + random_total, |i, acc| {
